@@ -350,6 +350,12 @@ func (v *SequenceDiagramVisitor) visitEndpointCollection(e *EndpointCollectionEl
 }
 
 func (v *SequenceDiagramVisitor) visitEndpoint(e *EndpointElement) error {
+	// a call may name an application or endpoint that the model does not define
+	if target, ok := v.m.GetApps()[e.appName]; !ok {
+		return fmt.Errorf("app %#v not found", e.appName)
+	} else if _, ok := target.GetEndpoints()[e.endpointName]; !ok {
+		return fmt.Errorf("endpoint %#v not found in app %#v", e.endpointName, e.appName)
+	}
 	sender := e.sender(v)
 	agent := e.agent(v)
 	app := e.application(v.m)
